@@ -328,13 +328,16 @@ func (t FunctionBlock) serializeTo(writer io.StringWriter) {
 // writing chunks as Unicode string
 // by calling the provided `write` callback.
 func serializeTo(nodes []Token, writer io.StringWriter) {
-	var previousType string
+	var (
+		previousType string
+		previousIsU  bool // the identifier u or U: "u+" starts a unicode-range
+	)
 	for _, node := range nodes {
 		serializationType := node.Kind().String()
 		if literal, ok := node.(Literal); ok {
 			serializationType = literal.Value
 		}
-		if badPairs[[2]string{previousType, serializationType}] {
+		if badPairs[[2]string{previousType, serializationType}] || (previousIsU && serializationType == "+") {
 			writer.WriteString("/**/")
 		} else if previousType == "\\" {
 			whitespace, ok := node.(Whitespace)
@@ -345,6 +348,8 @@ func serializeTo(nodes []Token, writer io.StringWriter) {
 		}
 		node.serializeTo(writer)
 		previousType = serializationType
+		ident, isIdent := node.(Ident)
+		previousIsU = isIdent && (ident.Value == "u" || ident.Value == "U")
 	}
 }
 
